@@ -145,6 +145,15 @@ theorem connTarget_eq {s : State} {c v : Nat} : connTarget s c = some v ↔ s.co
   | none => simp
   | some p => simp
 
+theorem ownedC_detach {s : State} {v c c' : Nat} {o : Option (Option Nat)}
+    (h : OwnedC ((slotRemCb v c s).setConn c o) c') : OwnedC s c' := by
+  obtain ⟨r, R, f, hR, hf, ho⟩ := h
+  rw [reps_setConn, slotRemCb_eq] at hR
+  split at hR
+  · exact ⟨r, R, f, hR, hf, ho⟩
+  · obtain ⟨W, hW, hWf⟩ := modRep_fn_inv (g := fun R => { R with cbs := R.cbs.erase c }) (fun _ => rfl) hR
+    exact ⟨r, W, f, hW, by rw [hWf]; exact hf, ho⟩
+
 theorem wf_connOps {s : State} (hw : WF s) (op : Op) (hc : check0 s op = none)
     (hop : (∃ c v, op = .connS c v) ∨ (∃ c, op = .newC c) ∨ (∃ j i, op = .cpC j i) ∨
       (∃ d x, op = .asgC d x) ∨ (∃ c, op = .delC c)) : WF (apply op s) := by
@@ -198,16 +207,20 @@ theorem wf_connOps {s : State} (hw : WF s) (op : Op) (hc : check0 s op = none)
       simp only [setConn_setConn] at this
       exact this
   · -- delC
+    have hno : ¬ OwnedC s c := by
+      intro h
+      have := (ownedCBy_iff hI.repBound c).mpr h
+      cases hx : s.conns c <;> simp_all [check0, deadC]
     simp only [apply]
     cases hd : connTarget s c with
     | none =>
       simp only []
-      refine wf_setConn_none hw ?_ _ (.inl rfl)
+      refine wf_setConn_none hw ?_ _ (.inl ⟨rfl, hno⟩)
       intro w hw'; rw [connTarget_eq.mpr hw'] at hd; cases hd
     | some v =>
       simp only []
       obtain ⟨hw1, hd1⟩ := wf_detach hw (connTarget_eq.mp hd)
-      have := wf_setConn_none hw1 hd1 none (.inl rfl)
+      have := wf_setConn_none hw1 hd1 none (.inl ⟨rfl, fun h => hno (ownedC_detach h)⟩)
       rw [setConn_setConn] at this
       exact this
 
@@ -293,7 +306,7 @@ theorem apply_wf {s : State} (hw : WF s) (op : Op) (hc' : check s op = none)
   | bad => exact hw
 
 theorem wf_init : WF State.init := by
-  refine ⟨⟨?_, ?_, ?_, ?_, ?_, ?_, ?_, ?_, ?_, ?_, ?_, ?_, ?_, ?_, ?_⟩, ?_, ?_⟩ <;>
+  refine ⟨⟨?_, ?_, ?_, ?_, ?_, ?_, ?_, ?_, ?_, ?_, ?_, ?_, ?_, ?_, ?_, ?_, ?_⟩, ?_, ?_⟩ <;>
     simp [State.init, repOf, Idle, Held]
 
 /-- one step of the language keeps the state well-formed -/
